@@ -256,19 +256,37 @@ def run_case(case, ctx):
     if out is not None and case["chain"] and abs(nrep) > 0 and len(rep["elements"]) >= 1 and pair_class != "cif_like":
         # second replacement: search for the motif just inserted (its coordinates are the replacement pattern's), parameterise it again
         pat2 = {"elements": list(rep["elements"]), "positions": np.array(rep["positions"], float), "cls": "inserted_motif", "continuous_symmetry": None}
-        rep2 = replcase.make_replacement(rng, pat2, ["equal_identical", "equal_partial", "larger_shared"][int(rng.integers(3))])
+        reparam = case["s"] % 2 == 1
+        if reparam:
+            # the group just inserted, parameterised again: the same atoms, type labels and numbers of term types as the first
+            # replacement pattern, other masses, pair coefficients and coefficient texts (a re-fitted force field)
+            rep2 = {"elements": list(rep["elements"]), "positions": np.array(rep["positions"], float), "kind": "reparametrised", "shared_search": None}
+        else:
+            rep2 = replcase.make_replacement(rng, pat2, ["equal_identical", "equal_partial", "larger_shared"][int(rng.integers(3))])
         if len(rep2["elements"]):
-            R2 = replcase.rep_to_atoms(rep2, id_base=-300.0)
-            R2.atom_type_labels = ["Q_%s" % e for e in R2.atom_type_elements]
-            if len(out.pair_coeffs) > 0:
-                R2.pair_coeffs = np.array(["Q_pair_%s 0.3 1.%d # Q%s" % (e, t, e) for t, e in enumerate(R2.atom_type_elements)])
-            t2 = {kd: (len(getattr(out, "%s_type_coeffs" % kd)) > 0 if len(getattr(out, "%s_types" % kd)) > 0 else (True if len(getattr(out, "%s_type_coeffs" % kd)) > 0 else bool(rng.integers(2))))
-                  for kd in atomsgen.KNAMES}
-            add_terms(rng, R2, len(R2), [], "Q", t2, max_each=3)
-            out1 = clone(out)
+            if reparam:
+                from vmon.gen import inplace
+                R2 = inplace.rebuild(R)
+                R2.charges = np.array([-300.0 - i / 64.0 for i in range(len(R2))])
+                R2.atom_type_masses = np.array(R2.atom_type_masses, float) + 1.0
+                for attr in ["pair_coeffs"] + ["%s_type_coeffs" % kd for kd in atomsgen.KNAMES]:
+                    if len(getattr(R2, attr)) > 0:
+                        setattr(R2, attr, np.array([str(x).replace("P_", "Q_").replace("# c", "# refit c") for x in getattr(R2, attr)]))
+                st.count("second_replacements_with_the_first_pattern_reparametrised")
+            else:
+                R2 = replcase.rep_to_atoms(rep2, id_base=-300.0)
+                R2.atom_type_labels = ["Q_%s" % e for e in R2.atom_type_elements]
+                if len(out.pair_coeffs) > 0:
+                    R2.pair_coeffs = np.array(["Q_pair_%s 0.3 1.%d # Q%s" % (e, t, e) for t, e in enumerate(R2.atom_type_elements)])
+                t2 = {kd: (len(getattr(out, "%s_type_coeffs" % kd)) > 0 if len(getattr(out, "%s_types" % kd)) > 0 else (True if len(getattr(out, "%s_type_coeffs" % kd)) > 0 else bool(rng.integers(2))))
+                      for kd in atomsgen.KNAMES}
+                add_terms(rng, R2, len(R2), [], "Q", t2, max_each=3)
+            # the intermediate structure is used as the first call returned it (what it carries besides its public arrays
+            # goes along); only its atom ids are renewed
+            out1 = out if reparam else clone(out)
             # make ids unique again: the copies inserted in step 1 share charges; give every atom of the intermediate structure its own id
             out1.charges = np.array([5000.0 + i / 64.0 for i in range(len(out1))])
-            out2, nrep2 = one_step(ctx, st, out1, pat2, rep2, R2, 2, case["s"] + 1, 2 * atol, False, w, "both" if len(out.pair_coeffs) else "neither", label="second replacement: ")
+            out2, nrep2 = one_step(ctx, st, out1, pat2, rep2, R2, 2, case["s"] + 1, 2 * atol, bool(reparam and case["s"] % 4 == 1), w, "both" if len(out.pair_coeffs) else "neither", label="second replacement: ")
             if out2 is not None:
                 st.count("two_step_chains")
                 nontrivial = nontrivial or nrep2 > 0
@@ -349,6 +367,8 @@ def requirements(stats, tier):
     need = []
     if stats.get("steps_compared_with_model") < (300 if tier == "quick" else 40000):
         need.append("too few replacement steps compared: %d" % stats.get("steps_compared_with_model"))
+    if stats.get("second_replacements_with_the_first_pattern_reparametrised") < (10 if tier == "quick" else 1000):
+        need.append("chains whose second replacement re-parametrises the first pattern: %d" % stats.get("second_replacements_with_the_first_pattern_reparametrised"))
     if stats.get("two_step_chains") < (20 if tier == "quick" else 3000):
         need.append("too few two-step chains: %d" % stats.get("two_step_chains"))
     if stats.get("example3_completed") < 1:
